@@ -37,7 +37,8 @@ Flat(a) == IF a = <<>> THEN <<>> ELSE Head(a) \o Flat(Tail(a))
 VARIABLES pool, prog, obs
 vars == <<pool, prog, obs>>
 
-Init == \E a \in StartArrays : pool = <<a>> /\ prog = <<[op |-> "create"]>> /\ obs = [kind |-> "none"]
+\* the program remembers what it was created from (the first array of the pool may be assigned to later)
+Init == \E a \in StartArrays : pool = <<a>> /\ prog = <<[op |-> "create", start |-> a]>> /\ obs = [kind |-> "none"]
 
 Room == Len(pool) < MaxPool /\ Len(prog) < MaxDepth
 CanDo == Len(prog) < MaxDepth
